@@ -65,4 +65,29 @@ TEXT.update({
            "additionally decided by the C18 Kani harnesses.",
            "MIR symbolic execution + z3, differential against an RFC schema encoder"),
 })
+_PK = ("Symbolic execution (mirsym + z3) of the real Packet::build_bytes_vec / build_bytes_vec_compressed / Packet::parse MIR over packets "
+       "assembled from parts with every id, flag, TTL, integer field and label byte a full-width symbol (section shapes per scenario): z3 is "
+       "asked for values on which an independent RFC 1035 envelope walker disagrees with the header counts / RDLENGTHs / end of output, "
+       "parse(plain) differs from the packet built, or parse(compressed) differs from parse(plain) or is longer.")
+TEXT.update({
+ "C03": _t(_PK, "DESIGN.md section 3 C03", "Suffix sharing is forced through shared symbolic labels; messages beyond 16383 bytes are decided by the "
+           "separate C03.far obligation when registered.", "MIR symbolic execution + z3: compressed vs plain serialisation, parse equality"),
+ "C13": _t("Symbolic execution of the real simple-mdns store and reply builder MIR (radix trie, hash maps modelled) over registered records and "
+           "queries whose names are built from shared symbolic labels so that the solver chooses collisions; the reply is compared with the "
+           "set-theoretic statement (soundness for answers/additional, completeness for exact owners, id/flag/unicast, None iff no match); "
+           "the trie-key lemma (prefix <=> subdomain) is decided for all label bytes.", "DESIGN.md section 3 C13",
+           "Trusted: radix_trie model written from the crate source, HashMap model with insertion-order iteration. Store sizes <= 3 records, <= 2 questions.",
+           "MIR symbolic execution + z3 against a set-theoretic reply oracle"),
+ "C20": _t("Symbolic execution of the real record-store MIR along operation histories with a symbolic monotone clock: for every TTL and flush bit "
+           "z3 is asked for clock values on which a filter returns the record although the statement forbids it or vice versa.",
+           "DESIGN.md section 3 C20", "Clock, trie and hash map are models; histories of <= 3 operations on one record key.",
+           "MIR symbolic execution + z3 with a symbolic clock"),
+})
+TEXT.update({
+ "C05": _t("Symbolic execution of the real Packet::parse MIR on messages header|record1|record2 where record1 has every supported type and every "
+           "RDLENGTH 0..K with fully symbolic RDATA: z3 is asked for bytes on which parsing succeeds but the second answer is not the A record at "
+           "the position an independent RFC 1035 envelope walker computes, or a message running past its end is accepted.",
+           "DESIGN.md section 3 C05", "Names inside RDATA are abstracted by the Name::parse contract; two records per message (the section loop adds "
+           "nothing per iteration beyond the cursor).", "MIR symbolic execution + z3 against an RFC 1035 envelope walker"),
+})
 NA_REASON = {}
